@@ -53,6 +53,23 @@ def conv_events(ev):
     return out
 
 
+def _new_run(scn, db, d, **kw):
+    """The executor of a scenario: an HTTP site, or (scn['ftp']) the scripted FTP server."""
+    from drivers.crawl_exec import CrawlRun
+    if scn.get('ftp'):
+        from drivers import errorflow_exec as X
+        f = scn['ftp']
+        ftp = dict(files={k: v.encode() for k, v in f['files'].items()}, dirs=tuple(f['dirs']),
+                   listings={k: v.encode('latin-1') for k, v in f['listings'].items()})
+        kw.pop('chooser', None)
+        r = X.HRun(dict(hosts={'a.test': X.A_IP}, urls=[], robots={}), X.ftp_argv(db, d, ['ftp://f.test/']), None, ftp=ftp,
+                   concurrency=scn['N'], db_path=db, cwd=d, **kw)
+        r._uidmap = {'ftp://f.test' + u['path']: u['id'] for u in scn['urls']}
+        r.count_ftp = True          # LIST / RETR are logged as the requests of the URLs they fetch
+        return r
+    return CrawlRun(cs.site_desc(scn), cs.argv(scn, db, d), concurrency=scn['N'], db_path=db, cwd=d, **kw)
+
+
 # ------------------------------------------------------------------ jobs (run in forked worker processes)
 def _exec_plain(scn, order_prefix):
     """One complete crawl; order_prefix = choice indices for which pending request is answered next."""
@@ -71,7 +88,7 @@ def _exec_plain(scn, order_prefix):
             choices.append((idx, n))
             return idx
 
-        r = CrawlRun(cs.site_desc(scn), cs.argv(scn, db, d), concurrency=scn['N'], db_path=db, chooser=chooser, cwd=d)
+        r = _new_run(scn, db, d, chooser=chooser)
         r.stmt_points = bool(scn.get('stmt_points'))
         r.split_answers = bool(scn.get('split'))
         r.max_requests = max(400, 3 * len(scn['urls']))
@@ -92,8 +109,7 @@ def _exec_crash(scn, crash_at):
         pid = os.fork()
         if pid == 0:
             try:
-                r = CrawlRun(cs.site_desc(scn), cs.argv(scn, db, d), concurrency=scn['N'], db_path=db,
-                             trace_file=tf, crash_at=crash_at, run_no=1, cwd=d)
+                r = _new_run(scn, db, d, trace_file=tf, crash_at=crash_at, run_no=1)
                 r.max_requests = max(400, 3 * len(scn['urls']))
                 r.stmt_points = bool(scn.get('stmt_points'))
                 r.execute()
@@ -106,7 +122,7 @@ def _exec_crash(scn, crash_at):
         crashed = bool(ev1) and ev1[-1].get('e') == 'crash'
         if not crashed:
             return dict(ev=ev1, rows=[], crashed=False, outcome='nocrash')
-        r2 = CrawlRun(cs.site_desc(scn), cs.argv(scn, db, d), concurrency=scn['N'], db_path=db, run_no=2, cwd=d)
+        r2 = _new_run(scn, db, d, run_no=2)
         r2.max_requests = max(400, 3 * len(scn['urls']))
         r2.stmt_points = bool(scn.get('stmt_points'))
         # what the database holds after the kill (the last commit may not have had its event logged)
